@@ -780,6 +780,10 @@ func writeSchemaOnlyStream(schema *arrow.Schema) ([]byte, error) {
 }
 
 func readIPCStream(buf []byte) (arrow.RecordBatch, error) {
+	// The region is written by the peer process; see checkIPCStreamFraming.
+	if _, err := checkIPCStreamFraming(buf); err != nil {
+		return nil, err
+	}
 	rdr, err := ipc.NewReader(bytes.NewReader(buf))
 	if err != nil {
 		return nil, err
@@ -822,7 +826,7 @@ func skipOneIPCMessage(buf []byte) (int, error) {
 	if err != nil {
 		return 0, err
 	}
-	return pos + metaLen + bodyLen, nil
+	return pos + metaLen + int(bodyLen), nil
 }
 
 // readMessageBodyLength parses a flatbuffer-encoded org.apache.arrow.flatbuf.Message
@@ -831,13 +835,18 @@ func skipOneIPCMessage(buf []byte) (int, error) {
 //
 // The Message table layout is documented in
 // arrow-format/Message.fbs and the field offsets are stable.
-func readMessageBodyLength(meta []byte) (int, error) {
-	if len(meta) < 8 {
+//
+// checkIPCStreamFraming bounds untrusted streams with the value returned
+// here, so the walk follows flatbuffers' Table.Offset step for step (same
+// slot test, same bytes dereferenced): it yields exactly the bodyLength
+// arrow-go will act on, and errors where arrow-go would index out of range.
+func readMessageBodyLength(meta []byte) (int64, error) {
+	if len(meta) < 4 {
 		return 0, fmt.Errorf("flatbuffer too short")
 	}
 	// Root offset is at byte 0 (uint32 LE).
 	rootOff := binary.LittleEndian.Uint32(meta[0:4])
-	if int(rootOff) >= len(meta) {
+	if uint64(rootOff) >= uint64(len(meta)) {
 		return 0, fmt.Errorf("flatbuffer root out of range")
 	}
 	// At rootOff is a soffset_t (int32) pointing back to the vtable.
@@ -847,7 +856,7 @@ func readMessageBodyLength(meta []byte) (int, error) {
 	}
 	vtableSOff := int32(binary.LittleEndian.Uint32(meta[tablePos : tablePos+4]))
 	vtablePos := tablePos - int(vtableSOff)
-	if vtablePos < 0 || vtablePos+6 > len(meta) {
+	if vtablePos < 0 || vtablePos+2 > len(meta) {
 		return 0, fmt.Errorf("flatbuffer vtable out of range")
 	}
 	vtableSize := int(binary.LittleEndian.Uint16(meta[vtablePos : vtablePos+2]))
@@ -855,7 +864,7 @@ func readMessageBodyLength(meta []byte) (int, error) {
 	// bodyLength (3), custom_metadata (4). bodyLength field index = 3,
 	// vtable slot offset = 4 + 2*3 = 10.
 	const bodyLengthSlot = 4 + 2*3
-	if bodyLengthSlot+2 > vtableSize {
+	if bodyLengthSlot >= vtableSize {
 		// Field absent → default 0.
 		return 0, nil
 	}
@@ -870,7 +879,7 @@ func readMessageBodyLength(meta []byte) (int, error) {
 	if abs+8 > len(meta) {
 		return 0, fmt.Errorf("flatbuffer body field out of range")
 	}
-	return int(binary.LittleEndian.Uint64(meta[abs : abs+8])), nil
+	return int64(binary.LittleEndian.Uint64(meta[abs : abs+8])), nil
 }
 
 // ----------------------------------------------------------------------
